@@ -1157,3 +1157,94 @@ V("C06", "C06.R6", "c06-ctor-dataobj-dropped", "shroud/wrapp.py",
     ),
     dict(
         # Fill an array struct member.''', "fire", "dataobj")
+# ---------------------------------------------------------------------------
+# C03
+# ---------------------------------------------------------------------------
+V("C03", "C03.R1", "c03-int-format-long", "shroud/typemap.py",
+  '''            f_cast="int({f_var}, C_INT)",
+            f_type="integer(C_INT)",
+            f_kind="C_INT",
+            f_module=dict(iso_c_binding=["C_INT"]),
+            PY_format="i",
+            PY_ctor="PyInt_FromLong({ctor_expr})",
+            PY_get="PyInt_AsLong({py_var})",
+            PYN_typenum="NPY_INT",
+            LUA_type="LUA_TNUMBER",
+            LUA_pop="lua_tointeger({LUA_state_var}, {LUA_index})",
+            LUA_push="lua_pushinteger({LUA_state_var}, {push_arg})",
+            sgroup="native",
+            sh_type="SH_TYPE_INT",''',
+  '''            f_cast="int({f_var}, C_INT)",
+            f_type="integer(C_INT)",
+            f_kind="C_INT",
+            f_module=dict(iso_c_binding=["C_INT"]),
+            PY_format="l",
+            PY_ctor="PyInt_FromLong({ctor_expr})",
+            PY_get="PyInt_AsLong({py_var})",
+            PYN_typenum="NPY_INT",
+            LUA_type="LUA_TNUMBER",
+            LUA_pop="lua_tointeger({LUA_state_var}, {LUA_index})",
+            LUA_push="lua_pushinteger({LUA_state_var}, {push_arg})",
+            sgroup="native",
+            sh_type="SH_TYPE_INT",''', "fire", "typemap[int]")
+V("C03", "C03.R1", "c03-float-format-d", "shroud/typemap.py",
+  '''            PY_format="f",''', '''            PY_format="d",''', "fire", "typemap[float]")
+V("C03", "C03.R2", "c03-tuple-size-of-kwds", "shroud/wrapp.py",
+  '''                "if (args != {nullptr}) SH_nargs += PyTuple_Size(args);\\n"
+                "if (kwds != {nullptr}) SH_nargs += PyDict_Size(kwds);",''',
+  '''                "if (args != {nullptr}) SH_nargs += PyTuple_Size(kwds);\\n"
+                "if (kwds != {nullptr}) SH_nargs += PyDict_Size(kwds);",''', "fire", "PyTuple_Size")
+V("C03", "C03.R3", "c03-parse-args-missing", "shroud/wrapp.py",
+  '''        name="py_void_*_in",
+        declare=[
+            "PyObject *{py_var};",
+        ],
+        parse_format="O",
+        parse_args=["&{py_var}"],''',
+  '''        name="py_void_*_in",
+        declare=[
+            "PyObject *{py_var};",
+        ],
+        parse_format="O!",
+        parse_args=["&{py_var}"],''', "fire", "py_void_*_in")
+V("C03", "C03.R3", "c03-build-format-arity", "shroud/typemap.py",
+  '''            PY_build_format="s#",''', '''            PY_build_format="s",''', "fire", "std::string")
+V("C03", "C03.R4", "c03-goto-fail-dropped", "shroud/wrapp.py",
+  '''array_error = [
+    "if ({py_var} == {nullptr}) {{+",
+    "PyErr_SetString(PyExc_ValueError,"
+    '\\t "{c_var} must be a 1-D array of {c_type}");',
+    "goto fail;",
+    "-}}",
+]''',
+  '''array_error = [
+    "if ({py_var} == {nullptr}) {{+",
+    "PyErr_SetString(PyExc_ValueError,"
+    '\\t "{c_var} must be a 1-D array of {c_type}");',
+    "-}}",
+]''', "fire", "PyErr_SetString")
+V("C03", "C03.R4", "c03-helper-error-no-return", "shroud/whelpers.py",
+  '''PyErr_Format(PyExc_TypeError,\\t "argument should be string or None, not %.200s",\\t Py_TYPE(obj)->tp_name);
+return 0;''',
+  '''PyErr_Format(PyExc_TypeError,\\t "argument should be string or None, not %.200s",\\t Py_TYPE(obj)->tp_name);''',
+  "fire", "get_from_object_char")
+V("C03", "C03.R4", "c03-goto-fail-flag-missing", "shroud/wrapp.py",
+  '''        fail=[
+            "Py_XDECREF({value_var}.dataobj);",
+        ],
+        goto_fail=True,
+    ),
+    
+########################################
+# string''',
+  '''        fail=[
+            "Py_XDECREF({value_var}.dataobj);",
+        ],
+    ),
+    
+########################################
+# string''', "fire", "py_char_**_in")
+V("C03", "C03.R6", "c03-counter-ignores-kwds", "shroud/wrapp.py",
+  '''                "if (args != {nullptr}) SHT_nargs += PyTuple_Size(args);\\n"
+                "if (kwds != {nullptr}) SHT_nargs += PyDict_Size(kwds);",''',
+  '''                "if (args != {nullptr}) SHT_nargs += PyTuple_Size(args);",''', "fire", "SHT_nargs")
